@@ -1,7 +1,28 @@
 use time::OffsetDateTime;
 
 fn now() -> i64 {
+    #[cfg(gmsol_verif)]
+    if let Some(ts) = verif::now_override() {
+        return ts;
+    }
     OffsetDateTime::now_utc().unix_timestamp()
+}
+
+/// Verification hook: a thread-local override of the wall clock.
+#[cfg(gmsol_verif)]
+pub mod verif {
+    use std::cell::Cell;
+
+    thread_local! { static NOW: Cell<Option<i64>> = const { Cell::new(None) }; }
+
+    /// Set (or clear) the timestamp returned instead of the wall clock on this thread.
+    pub fn set_now(ts: Option<i64>) {
+        NOW.with(|n| n.set(ts));
+    }
+
+    pub(super) fn now_override() -> Option<i64> {
+        NOW.with(|n| n.get())
+    }
 }
 
 pub(super) struct AsClock<'a> {
